@@ -1251,48 +1251,70 @@ func checkListingCursor(c *Ctx) {
 // "/current" where that is a link to "/data" must list the children of "/data".
 func checkMemFSListsByResolvedName(c *Ctx, rule string) {
 	p := c.P
-	rd := p.Func("(*root).readdir")
-	if rd == nil {
-		c.missing(rule, "(*root).readdir")
-		return
+	// wherever the listing is built: a method of the in-memory root (readdir, or Filelist once readdir is folded in)
+	// with a loop that compares path.Dir(key) and appends
+	var hosts []*ssa.Function
+	for _, fn := range p.LibFuncs() {
+		if r := fn.Signature.Recv(); r != nil && typeName(r.Type()) == "root" && fn.Pkg == p.Sftp {
+			hosts = append(hosts, fn)
+		}
 	}
-	c.looked(fnName(rd))
+	sort.Slice(hosts, func(i, j int) bool { return hosts[i].String() < hosts[j].String() })
 	n := 0
-	eachInstr(rd, func(in ssa.Instruction) {
-		bo, ok := in.(*ssa.BinOp)
-		if !ok || (bo.Op != token.EQL && bo.Op != token.NEQ) {
-			return
-		}
-		isDirOfKey := func(v ssa.Value) bool {
-			call, ok := v.(*ssa.Call)
-			return ok && callIs(&call.Call, "path.Dir")
-		}
-		var other ssa.Value
-		switch {
-		case isDirOfKey(bo.X):
-			other = bo.Y
-		case isDirOfKey(bo.Y):
-			other = bo.X
-		default:
-			return
-		}
-		n++
-		good := true
-		what := ""
-		for _, l := range leavesOf(other) {
-			if l.Kind == leafFieldLoad && l.Field == "name" && typeName(l.Base.Type()) == "memFile" {
-				continue
+	for _, rd := range hosts {
+		rd := rd
+		loops := loopsOf(rd)
+		eachInstr(rd, func(in ssa.Instruction) {
+			bo, ok := in.(*ssa.BinOp)
+			if !ok || (bo.Op != token.EQL && bo.Op != token.NEQ) {
+				return
 			}
-			good = false
-			switch l.Kind {
-			case leafParam:
-				what = "the parameter " + l.Param.Name()
+			l := innermostLoop(loops, in.Block())
+			if l == nil {
+				return
+			}
+			appends := false
+			for b := range l.blocks {
+				for _, x := range b.Instrs {
+					if cc := callOf(x); cc != nil && builtinName(cc) == "append" {
+						appends = true
+					}
+				}
+			}
+			if !appends {
+				return
+			}
+			isDirOfKey := func(v ssa.Value) bool {
+				call, ok := v.(*ssa.Call)
+				return ok && callIs(&call.Call, "path.Dir")
+			}
+			var other ssa.Value
+			switch {
+			case isDirOfKey(bo.X):
+				other = bo.Y
+			case isDirOfKey(bo.Y):
+				other = bo.X
 			default:
-				what = "something other than the fetched directory's name"
+				return
 			}
-		}
-		c.check(good, rule, "readdir selects children by the fetched directory's own name", p.Pos(in.Pos()), "path.Dir(key) == dir.name",
-			"the children are selected by "+what+": a directory listed through a symbolic link (or by a non-canonical name) comes back empty although it has entries")
-	})
-	c.check(n >= 1, rule, "readdir compares path.Dir(key)", p.Pos(rd.Pos()), fmt.Sprintf("%d comparisons", n), "readdir no longer selects the children by path.Dir(key)")
+			n++
+			good := true
+			what := ""
+			for _, l := range leavesOf(other) {
+				if l.Kind == leafFieldLoad && l.Field == "name" && typeName(l.Base.Type()) == "memFile" {
+					continue
+				}
+				good = false
+				switch l.Kind {
+				case leafParam:
+					what = "the parameter " + l.Param.Name()
+				default:
+					what = "something other than the fetched directory's name"
+				}
+			}
+			c.check(good, rule, "the in-memory listing selects children by the fetched directory's own name", p.Pos(in.Pos()), "path.Dir(key) == dir.name",
+				"the children are selected by "+what+": a directory listed through a symbolic link (or by a non-canonical name) comes back empty although it has entries")
+		})
+	}
+	c.check(n >= 1, rule, "the in-memory listing compares path.Dir(key)", "?", fmt.Sprintf("%d comparisons", n), "no method of the in-memory root selects the children of a directory by path.Dir(key) any more")
 }
